@@ -10,7 +10,8 @@
    [e_itxs] of the inserted events: they are universally quantified. *)
 From Coq Require Import ZArith List Bool Sorted.
 From V Require Import Model.ZMap Model.Quorum Model.HgImpl Model.PeerSetSpec
-  Proofs.BlockInv Proofs.HgBlockFrames Proofs.PeerSetProofs Proofs.TidyRR.
+  Proofs.BlockInv Proofs.HgBlockFrames Proofs.PeerSetProofs Proofs.TidyRR
+  Proofs.AdmissionProofs Proofs.OrderProofs Proofs.Agreement Proofs.WindowWitness.
 Import ListNotations.
 Open Scope Z_scope.
 
@@ -183,13 +184,35 @@ Theorem C10_quorum_gate : forall st x y ps,
 Proof. exact strongly_see_gate. Qed.
 Print Assumptions C10_quorum_gate.
 
-(* NOT PROVED here (not stated as a Definition either; asserted nowhere): the membership gates
-   as invariants of the memo tables and of the fame / round-received loops (C10_witness_gate and
-   C10_quorum_gate are the per-call facts; that every memoised witness flag and every quorum used
-   by DecideFame / DecideRoundReceived was computed with the set the FINAL table gives for that
-   round needs the window property "no round >= rr+6 is divided before the block of
-   round-received rr is committed", DESIGN.md stage D).  The former
-   C10_lookup_is_effective_prefix_statement is the theorem C10_lookup_is_effective_prefix. *)
+(* THE WINDOW PROPERTY IS FALSE.  The membership gates above are per-call facts; that every memoised
+   witness flag / round and every quorum used by DecideFame / DecideRoundReceived was computed with
+   the set the FINAL table gives for that round needs "a table entry is written only for a round that
+   no event has been divided into yet" (core.processAcceptedInternalTransactions: effective round =
+   round-received + 6, "all consistent hashgraphs will have decided the fame of round r witnesses by
+   round r+5").  Nothing bounds last_round - last_consensus: in the history ww of
+   Proofs/WindowWitness.v (4 validators, 142 valid fork-free gossip events, one accepted join in the
+   first block, coin bit false on 5 events) the entry for round 7 is written when 21 events already
+   sit in rounds 7..9, divided with the four-peer set.  Consequence: C01_agreement_dynamic_refuted
+   (two nodes fed the same events in two orders deliver different blocks); the same fork is
+   reproduced on the Go code (harness/cmd/winfork, KNOWN_FINDINGS C01/C10). *)
+Definition C10_window_statement : Prop :=
+  forall genesis all self_ oracle_ ops o r ps,
+    ids_determine all -> fork_free all -> Forall (hop_ok all) (ops ++ [o]) ->
+    let st := hrun (init_hg self_ genesis oracle_) ops in
+    In (r, ps) (peersets (hstep st o)) -> ~ In r (map fst (peersets st)) -> last_round (hstep st o) < r.
+Theorem C10_window_refuted : ~ C10_window_statement.
+Proof. exact ww_window_refuted. Qed.
+Print Assumptions C10_window_refuted.
+
+(* the witness, spelled out: just before event 118 nothing has been committed and rounds up to 9
+   exist; inserting 118 commits seven blocks at once and writes the five-peer set for round 7 *)
+Example C10_window_witness :
+  let st := hrun (init_hg 0 ww_g []) (map HInsert (firstn 118 ww_all)) in
+  let st' := hstep st (HInsert (ww_ev (118, 2, 24, 112, 115))) in
+  map fst (peersets st) = [0] /\ last_consensus st = None /\ last_round st = 9 /\
+  map (fun p => (fst p, map pkey (snd p))) (peersets st') = [(0, [0; 1; 2; 3]); (7, [0; 1; 2; 3; 4])] /\
+  last_round st' = 9 /\ last_consensus st' = Some 7.
+Proof. vm_compute. repeat split; reflexivity. Qed.
 
 (* non-vacuity: one validator; a join accepted and a join refused in the first block (round
    received 1 => effective at 7), then a leave of the joiner and a re-join of the refused peer in
